@@ -157,7 +157,7 @@ pub fn run_case(c: &Case, tolerated: &[String], sticky: bool) -> Report {
     let rt = case_runtime();
     let rep = rt.block_on(async {
         let mut rep = Report::new();
-        let opts = RunOpts { certificates: true, rows: true, client_verifier: false, signers_by_true_key: true, expect_certificate_on_honest_quorum: true };
+        let opts = RunOpts { certificates: true, rows: true, client_verifier: false, signers_by_true_key: true, expect_certificate_on_honest_quorum: true, sign_once: false };
         let mut run = Run::boot(&c.cfg, "c16", opts).await;
         let n = c.cfg.n_signers as usize;
         run.tolerated = tolerated.to_vec();
